@@ -7,6 +7,7 @@ import (
 	"flag"
 	"fmt"
 	"os"
+	"os/exec"
 	"path/filepath"
 	"regexp"
 	"sort"
@@ -75,6 +76,59 @@ func main() {
 		ids = props.IDs()
 	}
 	os.Exit(run(*repo, *verif, ids, *tier, "", *nowrite, *list))
+}
+
+// expectedSilent: seeded changes that are documented as outside the claimed clauses (DESIGN.md §9).
+var expectedSilent = map[string]int{"C12": 2}
+
+// overlayFromPatch applies a unified diff to copies of the files it touches
+// (in a scratch directory that is removed again) and returns the patched
+// contents keyed by their path under repo.
+func overlayFromPatch(repo, patch string) (map[string][]byte, error) {
+	data, err := os.ReadFile(patch)
+	if err != nil {
+		return nil, err
+	}
+	var files []string
+	for _, l := range strings.Split(string(data), "\n") {
+		if strings.HasPrefix(l, "+++ b/") {
+			files = append(files, strings.TrimPrefix(l, "+++ b/"))
+		}
+	}
+	if len(files) == 0 {
+		return nil, fmt.Errorf("no files in patch")
+	}
+	tmp, err := os.MkdirTemp("", "seqverif-ctl-")
+	if err != nil {
+		return nil, err
+	}
+	defer os.RemoveAll(tmp)
+	for _, f := range files {
+		src, err := os.ReadFile(filepath.Join(repo, f))
+		if err != nil {
+			return nil, fmt.Errorf("file %s of the patch is gone", f)
+		}
+		dst := filepath.Join(tmp, f)
+		os.MkdirAll(filepath.Dir(dst), 0o755)
+		if err := os.WriteFile(dst, src, 0o644); err != nil {
+			return nil, err
+		}
+	}
+	cmd := exec.Command("git", "apply", "--unsafe-paths", patch)
+	cmd.Dir = tmp
+	cmd.Env = append(os.Environ(), "GIT_CEILING_DIRECTORIES="+filepath.Dir(tmp), "GIT_DIR=/nonexistent")
+	if out, err := cmd.CombinedOutput(); err != nil {
+		return nil, fmt.Errorf("patch no longer applies: %s", strings.TrimSpace(string(out)))
+	}
+	ov := map[string][]byte{}
+	for _, f := range files {
+		b, err := os.ReadFile(filepath.Join(tmp, f))
+		if err != nil {
+			return nil, err
+		}
+		ov[filepath.Join(repo, f)] = b
+	}
+	return ov, nil
 }
 
 var unsafeRe = regexp.MustCompile(`[^A-Za-z0-9_.-]+`)
@@ -197,6 +251,101 @@ func run(repo, verif string, ids []string, tier, onlyOb string, nowrite, list bo
 			}
 			fmt.Printf("  %-8s %-22s sites=%-4d %s\n", r.Ob.ID, r.Ob.Engine, len(r.Sites), status)
 		}
+		// thorough tier: second build configuration and positive controls
+		var controls []map[string]any
+		if tier == "thorough" && onlyOb == "" {
+			// (1) the same obligations on the CGO-free build configuration (zstd/purego.go instead of zstd/cgo.go)
+			if p2, err := kit.Load(repo, nil, []string{"CGO_ENABLED=0"}); err != nil {
+				fmt.Printf("  thorough: CGO_ENABLED=0 configuration does not load: %v\n", err)
+				nviol++
+				fmt.Printf("VIOLATION property=%s replay=%s\n", id, "load-failure-cgo0")
+			} else {
+				bad := 0
+				for _, ob := range obs {
+					r := p2.Run(ob)
+					for _, v := range r.Viols {
+						known := false
+						for _, k := range kf.Findings {
+							if k.Property == id && k.Key == v.Key && k.Status == "known" {
+								known = true
+							}
+						}
+						if !known {
+							bad++
+							fmt.Printf("  %s [CGO_ENABLED=0] %s at %s: %s\n", strings.ToUpper(v.Kind), v.Key, v.Pos, v.Msg)
+						}
+					}
+				}
+				fmt.Printf("  thorough: second build configuration CGO_ENABLED=0: %d packages, %d unlisted violations\n", len(p2.Pkgs), bad)
+				controls = append(controls, map[string]any{"control": "build configuration CGO_ENABLED=0", "unlisted_violations": bad})
+				if bad > 0 {
+					nviol += bad
+					fmt.Printf("VIOLATION property=%s replay=%s\n", id, "cgo0-configuration")
+				}
+			}
+			// (2) positive controls: every confirmed seeded change of this property, applied as an overlay, must be reported
+			fired, silent, skipped := 0, 0, 0
+			seeds, _ := filepath.Glob(filepath.Join(verif, "seeded", id+"-*", "patch.diff"))
+			sort.Strings(seeds)
+			for _, patch := range seeds {
+				name := filepath.Base(filepath.Dir(patch))
+				ov, err := overlayFromPatch(repo, patch)
+				if err != nil {
+					skipped++
+					fmt.Printf("  control %s: skipped (%v)\n", name, err)
+					controls = append(controls, map[string]any{"control": "seeded change " + name, "result": "skipped: " + err.Error()})
+					continue
+				}
+				pm, err := kit.Load(repo, ov, nil)
+				if err != nil {
+					skipped++
+					fmt.Printf("  control %s: skipped (does not load: %v)\n", name, err)
+					controls = append(controls, map[string]any{"control": "seeded change " + name, "result": "skipped: does not type-check"})
+					continue
+				}
+				var by []string
+				for _, ob := range obs {
+					r := pm.Run(ob)
+					for _, v := range r.Viols {
+						known := false
+						for _, k := range kf.Findings {
+							if k.Property == id && k.Key == v.Key && k.Status == "known" {
+								known = true
+							}
+						}
+						// a report that also exists on the unchanged tree does not count
+						onBase := false
+						for _, bv := range violOut {
+							if bv.Key == v.Key {
+								onBase = true
+							}
+						}
+						if !known && !onBase {
+							by = append(by, v.Key)
+						}
+					}
+				}
+				if len(by) > 0 {
+					fired++
+					fmt.Printf("  control %s: reported by %s\n", name, by[0])
+					controls = append(controls, map[string]any{"control": "seeded change " + name, "result": "reported", "by": by})
+				} else {
+					silent++
+					fmt.Printf("  control %s: NOT reported\n", name)
+					controls = append(controls, map[string]any{"control": "seeded change " + name, "result": "not reported"})
+				}
+			}
+			fmt.Printf("  thorough: %d seeded controls reported, %d not reported, %d skipped\n", fired, silent, skipped)
+			counters["controls:reported"] = fired
+			counters["controls:not_reported"] = silent
+			counters["controls:skipped"] = skipped
+			expectSilent := expectedSilent[id]
+			if silent > expectSilent {
+				nviol++
+				fmt.Printf("  CONTROL FAILURE: %d seeded change(s) of %s are no longer reported (expected at most %d misses, listed in DESIGN.md §9)\n", silent, id, expectSilent)
+				fmt.Printf("VIOLATION property=%s replay=%s\n", id, "positive-control")
+			}
+		}
 		wall := time.Since(t0).Seconds() + loadS
 		fmt.Printf("%s: obligations=%d discharged=%d constructs=%d unlisted-violations=%d known-findings=%d (%.1fs)\n",
 			id, len(results), discharged, sites, nviol, nknown, wall)
@@ -225,6 +374,7 @@ func run(repo, verif string, ids []string, tier, onlyOb string, nowrite, list bo
 				"packages_analysed":   len(prog.Pkgs),
 				"functions_analysed":  len(prog.Funcs),
 				"counters":            counters,
+				"controls":            controls,
 				"exhaustive":          false,
 			},
 			"assumptions":    info.Assumptions,
